@@ -53,6 +53,10 @@ type Interp struct {
 	curG      *goroutine
 	sched     *scheduler
 	uncertain bool // a feasibility query answered unknown on this path
+	shapes    map[*ssa.BasicBlock]*mergeShape
+	noMerge   bool
+	noFork    bool // speculative execution of a branch arm: a decision aborts it
+	merges    int
 
 	// concrete mode (translator validation / replay inside the engine)
 	concrete      bool
@@ -89,6 +93,7 @@ type frame struct {
 	panicking        bool
 	panic            interface{}
 	tolerant         bool // package initialiser: failures poison instead of abort
+	phisDone         bool // the phis of fr.block were set by an if-conversion
 }
 
 func (in *Interp) info(fn *ssa.Function) *fnInfo {
@@ -575,6 +580,10 @@ func (in *Interp) executePhis(fr *frame) []ssa.Instruction {
 		}
 		firstNonPhi++
 	}
+	if fr.phisDone {
+		fr.phisDone = false
+		return instrs[firstNonPhi:]
+	}
 	if firstNonPhi > 0 {
 		predIndex := -1
 		for i, p := range fr.block.Preds {
@@ -718,6 +727,13 @@ func (in *Interp) visitInstr(fr *frame, instr ssa.Instruction) continuation {
 	case *ssa.If:
 		succ := 1
 		in.curSite = instr
+		if ct, ok := fr.get(instr.Cond).(*Term); ok && !ct.isConst() && !in.concrete {
+			// (only the path condition itself is consulted: the implied-cache
+			// is history dependent and a replayed prefix must merge identically)
+			if !in.pcSet[ct] && !in.pcSet[mkNot(ct)] && in.tryMerge(fr, instr, ct) {
+				return kJump
+			}
+		}
 		if in.truth(fr.get(instr.Cond)) {
 			succ = 0
 		}
